@@ -376,7 +376,7 @@ pub fn gen_font(rng: &mut Rng, quick: bool, want: Option<CmapScenario>) -> Optio
     // fits short loca offsets (< 131070 bytes) while an uncompacted re-serialisation (5 bytes per point,
     // e.g. after WOFF2 reconstruction) may not - the short/long loca decision must then be revisited.
     let dense = !big && rng.chance(1, 25);
-    let n = if dense { 380 + rng.below(160) } else if big { 257 + rng.below(if quick { 120 } else { 400 }) } else { 2 + rng.below(if quick { 40 } else { 90 }) };
+    let n = if dense { 270 + rng.below(130) } else if big { 257 + rng.below(if quick { 120 } else { 400 }) } else { 2 + rng.below(if quick { 40 } else { 90 }) };
     // kinds first so that composites may reference forward
     #[derive(Copy, Clone, PartialEq)]
     enum K {
@@ -656,7 +656,7 @@ pub fn gen_font(rng: &mut Rng, quick: bool, want: Option<CmapScenario>) -> Optio
             return None;
         }
     }
-    src.name = format!("generated[{} glyphs, nhm {}, {}]", n, nhm, desc);
+    src.name = format!("generated[{} glyphs, nhm {}, {}{}]", n, nhm, desc, if dense { ", dense" } else { "" });
     Some((src, GenInfo { scenario, desc }))
 }
 
@@ -861,7 +861,13 @@ impl Workload {
         }
         if cat == 0 {
             return match gen_font(rng, cx.quick(), want) {
-                Some((s, info)) => Some((Rc::new(s), Some(info))),
+                Some((s, info)) => {
+                    if s.name.contains(", dense") {
+                        let short = it::Head::read(s.font.gets("head").unwrap_or(&[])).map_or(false, |h| h.index_to_loc_format == 0);
+                        cx.class(if short { "source:dense-font-short-loca" } else { "source:dense-font-long-loca" });
+                    }
+                    Some((Rc::new(s), Some(info)))
+                }
                 None => {
                     cx.inconclusive("generator:font-self-check");
                     None
